@@ -241,14 +241,20 @@ Section C08.
     intros H. unfold set_error_state. apply Q8_emit_silent; [reflexivity|]. revert H. apply Q8_same; reflexivity.
   Qed.
 
-  Lemma Q8_p_uod e x : uod_event x = true -> Q8 e -> Q8 (emit e x).
-  Proof. intros U H. apply Q8_emit_silent; [|exact H]. destruct x; try discriminate; reflexivity. Qed.
+  Lemma Q8_p_uinit e n c : Q8 e -> Q8 (put_u (emit e (EUInit n (c_id c))) (inited c)).
+  Proof. intros H. apply (Q8_same (emit e (EUInit n (c_id c)))); try reflexivity. now apply Q8_emit_silent. Qed.
+  Lemma Q8_p_uexec e n id k : Q8 e -> Q8 (emit e (EUExec n id k)).
+  Proof. intros H. now apply Q8_emit_silent. Qed.
+  Lemma Q8_p_ufin e c : Q8 e -> Q8 (fin_u e c).
+  Proof. intros H. unfold fin_u. apply (Q8_same (emit e (EUFinal (c_name c) (c_id c)))); try reflexivity. now apply Q8_emit_silent. Qed.
 
   Lemma Q8_prim e e' : prim safe e e' -> Q8 e -> Q8 e'.
   Proof.
     intros P H. destruct P; try (revert H; apply Q8_same; reflexivity).
     - now apply Q8_p_update_clocks.
-    - now apply Q8_p_uod.
+    - now apply Q8_p_uinit.
+    - now apply Q8_p_uexec.
+    - now apply Q8_p_ufin.
     - now apply Q8_write.
     - now apply Q8_p_set_out_by.
     - now apply Q8_p_unpause.
